@@ -203,7 +203,11 @@ def main():
             if err is not None:
                 ck.fail("determined-but-error", inp, f"{type(err).__name__}: {err}")
             elif not gen:
-                ck.fail("determined-but-refused", inp, f"unique solution M={float(M0)} rel={[float(x) for x in rel]} but reported not generable", "determined-but-refused")
+                # the recorded finding is the refusal the MODEL reproduces (incomplete inference of the pinned tree); a refusal where the
+                # model derives the masses is a new violation
+                model_refuses = bool(out.get("ok")) and out.get("gen") is False
+                ck.fail("determined-but-refused", inp, f"unique solution M={float(M0)} rel={[float(x) for x in rel]} but reported not generable",
+                        "determined-but-refused" if model_refuses else None)
             else:
                 ok = True
                 for i, m in enumerate(mols):
